@@ -74,6 +74,10 @@ TABLE = [
     ("for (auto&& c : xs) v.push_back(e(c));", "let v ← Cv.forPush (fun c => do …; pure e) v xs"),
     ("while (v.size() < N) v.push_back(e);", "let v ← Cv.whilePush N (do …; pure e) v"),
     ("x = e; (optional / scalar local)", "let x := e"),
+    ("v.empty()", "List.isEmpty v"),
+    ("for (auto it = std::begin(xs); it != std::end(xs); ++it) { body assigning one local s }; it->m, *it", "let s ← Cv.forFold (fun s it => do …; pure s) s xs; it.m, it"),
+    ("auto& r = v.back();  r.f = e;", "let r ← Cv.back v (ub when empty); let r := { r with f := e }; let v := Cv.setBack v r — refused once v is modified structurally"),
+    ("int -> uint8_t", "Cv.i32ToU8 (modular)"),
     ("if (c) { assignments }", "let x ← (if c then (do …; pure x') else pure x)"),
     ("if (c) return e; / if (c) { …; return e; }", "if c then (…; pure e) else …rest…"),
     ("if (c) throw X{…}; / throw X{…};", "if c then .throw X else … / .throw X  (djinterop::name -> .dj \"name\"; std::… -> the coarse class)"),
@@ -100,13 +104,22 @@ STRUCTS = {
     "pad_color": ("V2.Color", [("r", "r", "u8"), ("g", "g", "u8"), ("b", "b", "u8"), ("a", "a", "u8")]),   # constructor (r, g, b, a)
     "quick_cues_blob": ("V2.Cues", [("quick_cues", "cues", ("vec", "quick_cue_blob")), ("adjusted_main_cue", "adjMain", "f64"),
                                     ("is_main_cue_adjusted", "isAdj", "bool"), ("default_main_cue", "defMain", "f64")]),
+    "beat_grid_marker_blob": ("V2.Marker", [("sample_offset", "off", "f64"), ("beat_number", "beatNo", "i64"),
+                                            ("number_of_beats", "nBeats", "i32"), ("unknown_value_1", "unk", "i32")]),
+    "beatgrid_marker": ("GMarker", [("index", "index", "i32"), ("sample_offset", "off", "f64")]),
     "loops_blob": ("Cv.LoopsBlob", [("loops", "loops", ("vec", "loop_blob")), ("extra_data", "extra", ("vec", "byte"))]),
 }
 TUPLES = {   # result structs of convert::write, as pairs in member order
     "converted_bpm_fields": [("opt", "f64"), ("opt", "i64")],
     "converted_key_fields": [("opt", "i32"), "i32"],
     "converted_sample_count_fields": ["i64", "f64"],
+    "converted_beatgrid_fields": ["u8", ("vec", "beat_grid_marker_blob"), ("vec", "beat_grid_marker_blob")],
 }
+# member typedefs that appear undesugared in a function's declared return type (every returned expression's own,
+# desugared type is compared with it, so a wrong entry makes the function Unsupported, never mistranslated)
+TYPEDEFS = {"beat_data_blob::beat_grid_marker_blobs_type": ("vec", "beat_grid_marker_blob"),
+            "quick_cues_blob::quick_cue_blobs_type": ("vec", "quick_cue_blob"),
+            "loops_blob::loop_blobs_type": ("vec", "loop_blob")}
 SCALARS = {"int": "i32", "long": "i64", "long long": "i64", "unsigned long long": "u64", "unsigned long": "usize",
            "unsigned char": "u8", "double": "f64", "bool": "bool", "void": "void", "int32_t": "i32", "int64_t": "i64",
            "uint8_t": "u8", "uint_least8_t": "u8", "size_t": "usize", "std::byte": "byte",
@@ -139,6 +152,11 @@ def tag_of(q):
     q = re.sub(r"\s+", " ", q)
     if q in SCALARS:
         return SCALARS[q]
+    if q in TYPEDEFS:
+        return TYPEDEFS[q]
+    mi = re.match(r"__gnu_cxx::__normal_iterator<(.*?) \*, ?std::vector<", q)
+    if mi:
+        return ("iter", tag_of(mi.group(1)))
     m = re.fullmatch(r"([A-Za-z_:0-9]+)<(.*)>", q)
     if m:
         head, args = m.group(1), split_targs(m.group(2))
@@ -200,7 +218,8 @@ def cast_term(src, dst, e, node=None):
     if src == dst or {src, dst} == {"i32", "key"} or {src, dst} == {"i64", "ms"}:
         return e, False
     tbl = {("i32", "i64"): "Cv.i32ToI64", ("key", "i64"): "Cv.i32ToI64", ("i64", "i32"): "Cv.i64ToI32",
-           ("i64", "u64"): "Cv.i64ToU64", ("u64", "i64"): "Cv.u64ToI64", ("i32", "u64"): "Cv.i32ToU64", ("u8", "bool"): "Cv.u8ToBool"}
+           ("i64", "u64"): "Cv.i64ToU64", ("u64", "i64"): "Cv.u64ToI64", ("i32", "u64"): "Cv.i32ToU64", ("u8", "bool"): "Cv.u8ToBool",
+           ("i32", "u8"): "Cv.i32ToU8"}
     if (src, dst) in tbl:
         return "(%s %s)" % (tbl[(src, dst)], e), False
     if dst == "f64" and src == "u64":
@@ -347,6 +366,8 @@ class Block:
             rd = n["referencedDecl"]
             nm = rd.get("name")
             if nm in self.env:
+                if nm in self.fn.aliases and self.fn.version.get(self.fn.aliases[nm][2], 0) != self.fn.aliases[nm][3]:
+                    raise Unsupported("reference used after its vector was modified", n)
                 return self.env[nm][0], self.env[nm][1]
             if rd.get("kind") == "VarDecl" and nm in self.fn.ctx.consts:
                 self.fn.used_consts.add(nm)
@@ -396,6 +417,8 @@ class Block:
                 o, t = self.expr(ks[1])
                 if isinstance(t, tuple) and t[0] == "opt":
                     return self.bind("Cv.deref %s" % o), t[1]
+                if isinstance(t, tuple) and t[0] == "iter":
+                    return o, t[1]          # the element the loop is at
             raise Unsupported("operator call " + str(op), n)
         if k == "CallExpr":
             return self.call(n)
@@ -456,9 +479,12 @@ class Block:
         b = TB.unwrap(base) if hasattr(TB, "unwrap") else base
         if b.get("kind") == "CXXOperatorCallExpr" and TB.callee_name(b) == "operator->":
             o, t = self.expr(kids(b)[1])
-            if not (isinstance(t, tuple) and t[0] == "opt"):
+            if isinstance(t, tuple) and t[0] == "iter":
+                v = o                       # the element the loop is at
+            elif isinstance(t, tuple) and t[0] == "opt":
+                v = self.bind("Cv.deref %s" % o)
+            else:
                 raise Unsupported("-> on " + str(t), n)
-            v = self.bind("Cv.deref %s" % o)
             lf, ft = self.field(t[1], name, n)
         else:
             v, t = self.expr(base)
@@ -486,6 +512,8 @@ class Block:
             return o, "i64"
         if isinstance(t, tuple) and t[0] == "vec" and name == "size" and not args:
             return "(List.length %s)" % o, "usize"
+        if isinstance(t, tuple) and t[0] == "vec" and name == "empty" and not args:
+            return "(List.isEmpty %s)" % o, "bool"
         raise Unsupported("call of %s on %s" % (name, t), n)
 
     def call(self, n):
@@ -654,6 +682,19 @@ class Block:
             return None
         return kids(ks[0])[0], ks[1]
 
+    def bump(self, name):
+        self.fn.version[name] = self.fn.version.get(name, 0) + 1
+
+    def alias_of(self, n):
+        """`prev.f` where `prev` is a reference to `v.back()` -> (alias name, field node) or None"""
+        while n.get("kind") in TB.WRAPPERS:
+            n = kids(n)[0]
+        if n.get("kind") == "MemberExpr":
+            b = kids(n)[0]
+            if b.get("kind") == "DeclRefExpr" and b["referencedDecl"].get("name") in self.fn.aliases:
+                return b["referencedDecl"]["name"], n
+        return None
+
     def target(self, n):
         """an assignable place: a local, or a member of a local struct -> (read term, tag, writer)"""
         while n.get("kind") in TB.WRAPPERS or (n.get("kind") == "ImplicitCastExpr" and n.get("castKind") == "NoOp"):
@@ -672,7 +713,32 @@ class Block:
                 return "%s.%s" % (ln, lf), ft, (lambda v: "let %s := { %s with %s := %s }" % (ln, ln, lf, v)), nm
         raise Unsupported("assignment target", n)
 
+    def alias_lhs(self, n):
+        """`prev.f = …` with `prev` declared in the same statement list as `auto& prev = v.back()` -> "v" """
+        while n.get("kind") in TB.WRAPPERS:
+            n = kids(n)[0]
+        if n.get("kind") == "MemberExpr":
+            b = kids(n)[0]
+            if b.get("kind") == "DeclRefExpr" and b["referencedDecl"].get("name") in self.fn.alias_decls:
+                return self.fn.alias_decls[b["referencedDecl"]["name"]]
+        return None
+
     def assigned(self, stmts):
+        for s in stmts:                   # references declared in this list
+            if s.get("kind") == "DeclStmt":
+                for v in kids(s):
+                    i = init_of(v) if v.get("kind") == "VarDecl" else None
+                    if i is not None and "&" in v.get("type", {}).get("qualType", ""):
+                        c = i
+                        while c.get("kind") in TB.WRAPPERS:
+                            c = kids(c)[0]
+                        if c.get("kind") == "CXXMemberCallExpr" and kids(c)[0].get("name") == "back":
+                            o = kids(kids(c)[0])[0]
+                            if o.get("kind") == "DeclRefExpr":
+                                self.fn.alias_decls[v["name"]] = o["referencedDecl"].get("name")
+        return self.assigned1(stmts)
+
+    def assigned1(self, stmts):
         """names of the locals a statement list may assign (for one-armed ifs)"""
         out = []
         for s in stmts:
@@ -682,8 +748,14 @@ class Block:
             pb = self.pushback(x)
             if pb:
                 out.append(self.target(pb[0])[3])
+            elif x.get("kind") == "DeclStmt" and all("&" in v.get("type", {}).get("qualType", "") for v in kids(x)):
+                pass                      # a reference to `v.back()`: assigns nothing by itself
+            elif x.get("kind") == "IfStmt" and len(kids(x)) == 2:
+                out += self.assigned(self.body_of(kids(x)[1]))
             elif x.get("kind") == "CXXOperatorCallExpr" and TB.callee_name(x) == "operator=":
                 out.append(self.target(kids(x)[1])[3])
+            elif x.get("kind") == "BinaryOperator" and x.get("opcode") == "=" and self.alias_lhs(kids(x)[0]):
+                out.append(self.alias_lhs(kids(x)[0]))
             elif x.get("kind") == "BinaryOperator" and x.get("opcode") == "=":
                 out.append(self.target(kids(x)[0])[3])
             else:
@@ -724,10 +796,25 @@ class Block:
             for v in ks:
                 if v.get("kind") != "VarDecl":
                     raise Unsupported("declaration", v)
-                t = ntag(v)
                 init = [init_of(v)]
                 if init[0] is None:
                     raise Unsupported("uninitialised local", v)
+                if "&" in v["type"].get("qualType", ""):
+                    c = init[0]
+                    while c.get("kind") in TB.WRAPPERS:
+                        c = kids(c)[0]
+                    if "const" in v["type"]["qualType"] or c.get("kind") != "CXXMemberCallExpr" or \
+                            kids(c)[0].get("kind") != "MemberExpr" or kids(c)[0].get("name") != "back" or len(kids(c)) != 1:
+                        raise Unsupported("reference local", v)
+                    rd, vt, wr, vn = self.target(kids(kids(c)[0])[0])
+                    if not (isinstance(vt, tuple) and vt[0] == "vec" and ntag(c) == vt[1]):
+                        raise Unsupported("reference to back() of " + str(vt), v)
+                    ln = lname(v["name"])
+                    self.emit("let %s ← Cv.back %s" % (ln, rd))
+                    self.env[v["name"]] = (ln, vt[1])
+                    self.fn.aliases[v["name"]] = (rd, wr, vn, self.fn.version.get(vn, 0))
+                    continue
+                t = ntag(v)
                 if t in INT_RANGE or t == "f64":
                     e = self.as_tag(init[-1], t)
                 else:
@@ -783,11 +870,12 @@ class Block:
                 return False
             pb = self.pushback(s)
             if pb:
-                rd, t, wr, _ = self.target(pb[0])
+                rd, t, wr, tn = self.target(pb[0])
                 e, te = self.expr(pb[1])
                 if t != ("vec", te):
                     raise Unsupported("push_back of %s onto %s" % (te, t), s)
                 self.emit(wr("%s ++ [%s]" % (rd, e)))
+                self.bump(tn)
                 return False
             raise Unsupported("member call statement", s)
         if k == "CXXOperatorCallExpr" and TB.callee_name(s) == "operator=" and len(ks) == 3:
@@ -796,6 +884,17 @@ class Block:
             if te != t:
                 raise Unsupported("assignment of %s to %s" % (te, t), s)
             self.emit(wr(e))
+            return False
+        if k == "BinaryOperator" and s.get("opcode") == "=" and self.alias_of(ks[0]):
+            an, mn = self.alias_of(ks[0])
+            rd, wr, vn, ver = self.fn.aliases[an]
+            if self.fn.version.get(vn, 0) != ver or an not in self.env:
+                raise Unsupported("reference used after its vector was modified", s)
+            ln, st = self.env[an]
+            lf, ft = self.field(st, mn.get("name"), s)
+            e = self.as_tag(ks[1], ft) if (ft in INT_RANGE or ft == "f64") else self.expr(ks[1])[0]
+            self.emit("let %s := { %s with %s := %s }" % (ln, ln, lf, e))
+            self.emit(wr("Cv.setBack %s %s" % (rd, ln)))
             return False
         if k == "BinaryOperator" and s.get("opcode") == "=":
             rd, t, wr, _ = self.target(ks[0])
@@ -823,6 +922,59 @@ class Block:
                 raise Unsupported("push_back of %s onto %s" % (te, t), s)
             v = self.bind("Cv.forPush (fun %s => %s) %s %s" % (vn, self.oneline(b, e), rd, xs))
             self.emit(wr(v))
+            return False
+        if k == "ForStmt" and len(ks) == 4:
+            init, cond, inc, body = ks
+            iv = kids(init)[0] if init.get("kind") == "DeclStmt" and len(kids(init)) == 1 else None
+            it = ntag(iv) if iv else None
+            if not (iv and isinstance(it, tuple) and it[0] == "iter"):
+                raise Unsupported("for shape (initialiser)", s)
+
+            def range_call(c, fname):
+                while c.get("kind") in TB.WRAPPERS or (c.get("kind") == "ImplicitCastExpr" and c.get("castKind") == "NoOp"):
+                    c = kids(c)[0]
+                if c.get("kind") == "CallExpr" and TB.callee_name(c) == fname and len(kids(c)) == 2:
+                    return kids(c)[1]
+                if c.get("kind") == "CXXMemberCallExpr" and kids(c)[0].get("name") == fname and len(kids(c)) == 1:
+                    return kids(kids(c)[0])[0]
+                return None
+            xb = range_call(init_of(iv), "begin")
+            c = cond
+            while c.get("kind") in TB.WRAPPERS:
+                c = kids(c)[0]
+            ok = c.get("kind") == "CXXOperatorCallExpr" and TB.callee_name(c) == "operator!=" and len(kids(c)) == 3
+            xe = range_call(kids(c)[2], "end") if ok else None
+            lhs = kids(c)[1] if ok else None
+            while lhs is not None and (lhs.get("kind") in TB.WRAPPERS or lhs.get("kind") == "ImplicitCastExpr"):
+                lhs = kids(lhs)[0]
+            i2 = inc
+            while i2.get("kind") in TB.WRAPPERS:
+                i2 = kids(i2)[0]
+            if not (xb is not None and xe is not None and lhs.get("kind") == "DeclRefExpr" and
+                    lhs["referencedDecl"].get("name") == iv["name"] and
+                    i2.get("kind") == "CXXOperatorCallExpr" and TB.callee_name(i2) == "operator++" and len(kids(i2)) == 2 and
+                    kids(i2)[1].get("kind") == "DeclRefExpr" and kids(i2)[1]["referencedDecl"].get("name") == iv["name"]):
+                raise Unsupported("for shape (not `it = begin(v); it != end(v); ++it`)", s)
+            xs, xt = self.expr(xb)
+            xs2, _ = self.expr(xe)
+            if xs != xs2 or xt != ("vec", it[1]):
+                raise Unsupported("for over two different ranges", s)
+            stmts = self.body_of(body)
+            names = self.assigned(stmts)
+            if len(names) != 1:
+                raise Unsupported("loop body assigning %d locals" % len(names), s)
+            sn = names[0]
+            sl, stag = self.env[sn]
+            b = self.sub()
+            vn = lname(iv["name"])
+            b.env[iv["name"]] = (vn, it)
+            if b.stmts(stmts):
+                raise Unsupported("return inside a loop", s)
+            if xs == sl:
+                raise Unsupported("loop over the vector it modifies", s)
+            v = self.bind("Cv.forFold (fun %s %s => %s) %s %s" % (sl, vn, self.oneline(b, b.env[sn][0]), sl, xs))
+            self.emit("let %s := %s" % (sl, v))
+            self.bump(sn)
             return False
         if k == "WhileStmt" and len(ks) == 2:
             c = ks[0]
@@ -858,6 +1010,9 @@ class Fn:
         self.n = 0
         self.ops = False
         self.locals = set()
+        self.aliases = {}         # reference local -> (vector read term, writer, vector name, version at binding)
+        self.alias_decls = {}     # reference local -> vector name (syntactic, for `assigned`)
+        self.version = {}         # vector local -> number of structural modifications so far
         self.notes = set()
         self.used_consts = set()
 
